@@ -9,6 +9,7 @@ from __future__ import annotations
 import json
 
 from .. import kernels, kruns, problems
+from ..kernels import RealWorker
 from ..core import Check, Driver, sx
 from ..gen import fmt_str
 
@@ -88,7 +89,7 @@ def run_batch(chk: Check, drv: Driver, prepared, n_inputs: int, real: bool, back
         if pr.broadcast or not getattr(pr, "_cases", None):
             continue
         inputs_list = [ins for _, ins in pr._cases]
-        res = kernels.in_fork(lambda: kernels.run_real(pr.text, pr.fs, inputs_list, backend), timeout=60)
+        res = WORKER.run(pr.text, pr.fs, inputs_list, backend, timeout=60)
         chk.count("real_problems")
         if res[0] == "crash":
             f = kruns.finding_for(chk, pr, "crash")
@@ -183,6 +184,9 @@ def front_half(chk: Check, drv: Driver):
     chk.corr("denote-oracle", len(meta), mism_o)
 
 
+WORKER = RealWorker()
+
+
 def run(chk: Check, drv: Driver):
     front_half(chk, drv)
     chk.cov["rule"] = (
@@ -201,7 +205,7 @@ def run(chk: Check, drv: Driver):
         if pr.status == "ok":
             prepared.append(pr)
     chk.count("problems_with_kernel", len(prepared))
-    kruns.compile_corr(chk, drv, prepared)
+    kruns.compile_corr(chk, drv, prepared, limit=(150 if quick else None))
     run_batch(chk, drv, prepared, n_inputs=3 if quick else 6, real=True)
     chk.assumptions += [
         "values are small integers stored in binary64 (exact); rounding is outside the specification",
